@@ -15,7 +15,7 @@ import vlib
 # TLC on the design
 
 
-def mc_cfg(family, maxlen, bs, trailing=True, blocking=False, props=True, liveness=False, invariants=None):
+def mc_cfg(family, maxlen, bs, trailing=True, blocking=False, props=True, liveness=False, invariants=None, first_error_only=False):
     inv = invariants or "TypeOK PrefixOrder OutputCorrect SuccessDeterministic ErrorNotLost SuccessMeansClean FailDeterministic"
     if family == "tailf" and not invariants:
         inv += " TailF"
@@ -25,6 +25,7 @@ def mc_cfg(family, maxlen, bs, trailing=True, blocking=False, props=True, livene
         "  Configs <- MCConfigs",
         "  DoneSendBlocking = %s" % ("TRUE" if blocking else "FALSE"),
         "  ExitStops = TRUE",
+        "  FirstErrorOnly = %s" % ("TRUE" if first_error_only else "FALSE"),
         "  MaxLen = %d" % maxlen,
         "  Trailing = %s" % ("TRUE" if trailing else "FALSE"),
         "  Bs = {%s}" % ", ".join(str(b) for b in bs),
@@ -37,8 +38,9 @@ def mc_cfg(family, maxlen, bs, trailing=True, blocking=False, props=True, livene
     return "\n".join(lines) + "\n"
 
 
-def run_mc(family, maxlen, bs, trailing=True, blocking=False, liveness=False, timeout=3000, workers=None, invariants=None):
-    cfgtext = mc_cfg(family, maxlen, bs, trailing, blocking, liveness=liveness, invariants=invariants)
+def run_mc(family, maxlen, bs, trailing=True, blocking=False, liveness=False, timeout=3000, workers=None, invariants=None,
+           first_error_only=False):
+    cfgtext = mc_cfg(family, maxlen, bs, trailing, blocking, liveness=liveness, invariants=invariants, first_error_only=first_error_only)
     r = vlib.tlc("MCPipeline", cfg="gen.cfg", extra_files={"gen.cfg": cfgtext}, timeout=timeout, workers=workers)
     return r
 
